@@ -16,7 +16,8 @@ LEVEL = "exploration"
 TECHNIQUE = (
     "device-database enumeration of every (family, target, authentication) class x Hypothesis-generated option sets, payloads and key "
     "material, built through the configuration path of `nxpimage mbi export`; round trip through MasterBootImage.parse / create_config / "
-    "re-export and a header reader written from the vector-table layout; about one case in six additionally through the real "
+    "re-export and a header reader written from the vector-table layout; MCXC images with the bootloader configuration area / flash "
+    "configuration field given as binary, configuration file or inside the application (enumerated); about one case in six additionally through the real "
     "`nxpimage mbi export` / `nxpimage mbi parse` commands (click test runner) with the same oracles on the files they write"
 )
 LEVEL_TEXT = (
